@@ -84,6 +84,9 @@ func build(s spec) types.EthereumClaim {
 		return &types.MsgBatchSendToRemoteClaim{EventNonce: s.EventNonce, EthBlockHeight: s.Height, BatchNonce: s.BatchNonce,
 			TokenContract: s.Token, ChainReferenceId: s.Chain, Orchestrator: orch, Metadata: md, SkywayNonce: s.SkywayNonce,
 			CompassId: s.Compass}
+	case tLegacy:
+		return &types.MsgBatchSendToEthClaim{EventNonce: s.EventNonce, EthBlockHeight: s.Height, BatchNonce: s.BatchNonce, TokenContract: s.Token,
+			ChainReferenceId: s.Chain, Orchestrator: orch, Metadata: md, SkywayNonce: s.SkywayNonce}
 	default:
 		return &types.MsgLightNodeSaleClaim{Metadata: md, EventNonce: s.EventNonce, EthBlockHeight: s.Height, Orchestrator: orch,
 			ChainReferenceId: s.Chain, SkywayNonce: s.SkywayNonce, ClientAddress: s.Client, Amount: amt(s.Amount),
@@ -284,6 +287,8 @@ func (e *env) submit(c types.EthereumClaim) (res string, detail string) {
 		_, err = e.ms.BatchSendToRemoteClaim(e.ctx, m)
 	case *types.MsgLightNodeSaleClaim:
 		_, err = e.ms.LightNodeSaleClaim(e.ctx, m)
+	default:
+		return "err", "no msg-server route for " + typeName(c)
 	}
 	if err != nil {
 		return "err", err.Error()
